@@ -51,7 +51,7 @@ def run(ctx):
     cases = gen_cases(ctx, 1500 if quick else 25000, defect_rate=0.55)
     texts = [c[1] for c in cases]
     impl, model = run_specs(ctx, texts)
-    ncorr = correspondence(ctx, texts, impl, model)
+    ncorr = correspondence(ctx, texts, impl, model, fields=("name", "T", "D"))      # the part of an accepted result this property is about
     acc = ctx.run_impl("accept", [hx(t) for t in texts])
     known = {f["id"]: f for f in known_for("C07")}
     stats = {"accepted": 0, "rejected": 0, "skipped_conflict": 0, "skipped_syntax": 0, "explained_F14": 0}
